@@ -101,12 +101,29 @@ def run_c13(pid, tier, seed):
     racelog = os.path.join(d, "race")
     count = 400 if tier == "quick" else 5000
     genv = {"GORACE": "log_path=%s halt_on_error=0 exitcode=0" % racelog}
-    run_harness(binp, ["storeconc", "--out", hist, "--seed", str(seed), "--count", str(count)], env=genv)
+    crashes = []
+
+    def harness(args):
+        # the Go runtime ends the process when it detects unsynchronised map access ("fatal error: concurrent map ...");
+        # when the store's own methods are on the stack that is the race the property forbids, found the hard way
+        msg = run_harness(binp, args, env=genv, tolerate_crash=True)
+        if msg:
+            if "fatal error: concurrent map" in msg and "flyt.(*SharedStore)" in msg:
+                crashes.append(msg)
+            else:
+                raise ToolFailure(msg)
+    harness(["storeconc", "--out", hist, "--seed", str(seed), "--count", str(count)])
     # heavier stress whose only oracle is the race detector
     stressp = os.path.join(d, "stress.ndjson")
     nstress = 300 if tier == "quick" else 6000
-    run_harness(binp, ["storeconc", "--out", stressp, "--seed", str(seed + 1), "--count", str(nstress), "--modes", "stress"], env=genv)
+    harness(["storeconc", "--out", stressp, "--seed", str(seed + 1), "--count", str(nstress), "--modes", "stress"])
     sfails, _, ssumm = judge_histories(d, "TPStore", stressp, pid, shards=2)
+    # long runs under delete churn: every log of the single writer of a key set must be a sequential map history
+    churnp = os.path.join(d, "churn.ndjson")
+    nchurn = 12 if tier == "quick" else 200
+    harness(["storeconc", "--out", churnp, "--seed", str(seed + 2), "--count", str(nchurn), "--modes", "churn"])
+    cfails, _, csumm = judge_histories(d, "TPStore", churnp, pid, shards=4)
+    log("churn runs: %d owner logs (%d operations) judged against the sequential map, %d failing" % (csumm.get("scenarios", 0), csumm.get("events", 0), len(cfails)))
     parts = shard_file(hist, 8)
     ok = set()
     import concurrent.futures
@@ -142,14 +159,23 @@ def run_c13(pid, tier, seed):
         sscn = load_scenarios(stressp)
         for scn_id, prop, clauses in sfails[:5]:
             violations.append({"property": pid, "family": "store", "clauses": clauses, "signature": "C13:quiescent", "scenario": sscn[scn_id]})
+    if cfails:
+        cscn = load_scenarios(churnp)
+        for scn_id, prop, clauses in cfails[:5]:
+            sc = dict(cscn[scn_id])
+            sc["h"] = sc["h"][:60]          # the bundle keeps the head of the log; the replay runs the churn again
+            violations.append({"property": pid, "family": "store", "clauses": clauses, "signature": "C13:ownerSequential", "scenario": sc})
+    for msg in crashes[:1]:
+        violations.append({"property": pid, "family": "store", "clauses": ["raceFree"], "signature": "C13:race", "race_report": msg[:6000], "scenario": None})
     races = glob.glob(racelog + ".*")
-    if races:
+    if races and not crashes:
         with open(races[0]) as f:
             txt = f.read()
         violations.append({"property": pid, "family": "store", "clauses": ["raceFree"], "signature": "C13:race", "race_report": txt[:6000], "scenario": None})
     samples = [{"scn": r["scn"], "goroutines": r["cfg"]["g"], "history": r["h"][:30]} for r in list(scns.values())[:2]]
     part = dict(states=states, transitions=transitions, scenarios=len(scns), events=events,
-                hits={"overlapping_operations": overlapping, "stress_runs_under_race_detector": nstress},
+                hits={"overlapping_operations": overlapping, "stress_runs_under_race_detector": nstress,
+                      "owner_logs_under_churn": csumm.get("scenarios", 0), "owner_operations_under_churn": csumm.get("events", 0)},
                 violations=violations, known_hits=known_hits, drifts=0, mc_info=mc_info, samples=samples, exported=0,
                 modes="2..6 goroutines x 4..10 operations over 2..8 keys, released from a barrier; -race", count=count)
     return fam_batch.finish(pid, tier, seed, d, t0, [("storeconc", part)])
@@ -168,6 +194,18 @@ def replay(bundle):
     rp = os.path.join(d, "replay.ndjson")
     with open(rp, "w") as f:
         f.write(json.dumps(bundle["scenario"]) + "\n")
+    if bundle["scenario"].get("fam") == "storeowner":
+        log("head of the recorded owner log: %s" % json.dumps(bundle["scenario"]["h"][:12]))
+        binp = build_harness(d, race=True)
+        sp = os.path.join(d, "churn.ndjson")
+        run_harness(binp, ["storeconc", "--out", sp, "--seed", "1", "--count", "60", "--modes", "churn"],
+                    env={"GORACE": "log_path=%s halt_on_error=0 exitcode=0" % os.path.join(d, "race")})
+        sf, _, _ = judge_histories(d, "TPStore", sp, pid, shards=4)
+        if sf:
+            log("VIOLATION property=%s replay=%s (owner log that is no sequential map history reproduced in %d logs of 60 churn runs)" % (pid, bundle.get("_path", "?"), len(sf)))
+            return 1
+        log("60 churn runs on the current tree: every owner log is a sequential map history")
+        return 0
     if bundle["scenario"].get("fam") == "storestress":
         log("recorded answers of the quiescent store: %s" % json.dumps(bundle["scenario"]["h"]))
         binp = build_harness(d, race=True)
